@@ -24,7 +24,8 @@ from mirsym.engine import Agg, PyVec, Str, Ref, Opaque, Unsupported, Panic, mkst
 
 LCRATES = ('ast', 'cst', 'parser', 'lexer', 'diagnostics', 'common_defs', 'compiler')
 ESC = {'"': 34, '\\': 92, 'b': 8, 'n': 10, 'f': 12, 'r': 13, 't': 9, '/': 47}      # the escapes of the lexer's Str regex and what they denote (JSON)
-UNI = ['0041', '00e9', '2192', '0001', '00E9', 'AbCd']
+UNI = ['0041', '00e9', '2192', '0001', '00E9', 'AbCd', 'd800', 'DFFF']      # the last two are lone surrogates: no character to be faithful to, but lowering must survive them
+def _is_surr(h): return 0xD800 <= int(h, 16) <= 0xDFFF
 
 def go_decode(ex, chars):
     """reference decoder of the *content* of a Go interpreted string literal -> code points, or None if it is not a legal literal"""
@@ -105,8 +106,9 @@ def ob_string_literal(r, tier, seed, items):
             elif k.startswith('esc'):
                 chars += [92, ord(k[3])]; want.append(ESC[k[3]]); desc.append('\\' + k[3])
             else:
-                chars += [92, 117] + [ord(h) for h in k[1:]]; want.append(int(k[1:], 16)); desc.append('\\u' + k[1:])
+                chars += [92, 117] + [ord(h) for h in k[1:]]; want.append(None if _is_surr(k[1:]) else int(k[1:], 16)); desc.append('\\u' + k[1:])
         chars.append(34)
+        ex.notes['desc'] = list(desc)
         cur['text'] = Str(chars)
         node = Agg(CEX.key, CEX.vindex('StrExpr'), [Agg(SE.key, 0, [Opaque('syntaxnode')])])
         LC = [a for a in W.tt.by_name.get('LowerCtx', []) if a.crate == 'ast'][0]
@@ -126,14 +128,17 @@ def ob_string_literal(r, tier, seed, items):
     found = {}
     for p in res:
         r.cases += 1
-        if p.kind != 'ok': found.setdefault('panic', ('lowering / printing a string literal panics: %s' % p.value, None)); continue
+        if p.kind != 'ok':
+            d_ = (p.notes or {}).get('desc')
+            found.setdefault('panic', ('lowering / printing the string literal "%s" panics: %s' % (''.join(x if x != '<char>' else 'x' for x in (d_ or [])), p.value), d_)); continue
         desc, st, dec, want = p.value
         r.nontrivial += 1
         if st != 'ok': found.setdefault('valid-literal-rejected', ('a string token the lexer accepts is %s by lowering: items %s' % (st, desc), desc)); continue
         bad = dec is None or len(dec) != len(want)
         if not bad:
-            neq = [ms.zi(a) != ms.zi(b) for a, b in zip(dec, want) if not (not ms.is_sym(a) and not ms.is_sym(b) and a == b)]
-            conc = any((not ms.is_sym(a) and not ms.is_sym(b) and a != b) for a, b in zip(dec, want))
+            pairs = [(a, b) for a, b in zip(dec, want) if b is not None]
+            neq = [ms.zi(a) != ms.zi(b) for a, b in pairs if not (not ms.is_sym(a) and not ms.is_sym(b) and a == b)]
+            conc = any((not ms.is_sym(a) and not ms.is_sym(b) and a != b) for a, b in pairs)
             if conc: bad = True
             elif neq:
                 m, dt = e2.check(p.pc + [z3.Or(*neq)]); r.queries += 1; r.solver_s += dt
@@ -146,6 +151,8 @@ def ob_string_literal(r, tier, seed, items):
         ok_, detail = True, 'values read from the real lower_expr_with_args / escape_go_string MIR'
         if key in ('escape-not-decoded', 'literal-changed') and desc is not None:
             ok_, detail = replay_string_literal(desc)
+        if key == 'panic' and desc is not None:
+            ok_, detail = replay_string_literal(desc, expect_panic=True)
         r.findings.append(Finding(key, what, {'items': desc}, ok_, detail))
 
 def py_go_decode(lit):
@@ -167,23 +174,27 @@ def py_go_decode(lit):
         out.append(ord(c)); i += 1
     return out
 
-def replay_string_literal(desc):
+def replay_string_literal(desc, expect_panic=False):
     """native: the goml literal built from the items (plain characters as `x`) through the real CLI; the emitted Go literal is decoded and compared"""
     src_lit = ''.join('x' if d == '<char>' else d for d in desc)
     want = []
     for d in desc:
         if d == '<char>': want.append(ord('x'))
-        elif d.startswith('\\u'): want.append(int(d[2:], 16))
+        elif d.startswith('\\u'): want.append(None if _is_surr(d[2:]) else int(d[2:], 16))
         else: want.append(ESC[d[1]])
     d_ = tempfile.mkdtemp(prefix='vf-c11-')
     try:
         open(os.path.join(d_, 'main.gom'), 'w').write('fn main() -> unit { string_println("%s") }\n' % src_lit)
         out = subprocess.run([build.compiler_bin(), 'run', '--dump-go', os.path.join(d_, 'main.gom')], capture_output=True, text=True, timeout=60)
     finally: shutil.rmtree(d_, ignore_errors=True)
+    if expect_panic:
+        pan = [l for l in (out.stdout + out.stderr).splitlines() if 'panicked' in l]
+        return bool(pan), 'goml `string_println("%s")`: %s' % (src_lit, pan[:1] if pan else 'no panic')
     line = [l.strip() for l in out.stdout.splitlines() if 'string_println("' in l and 'func ' not in l]
     if not line: return False, 'native CLI did not emit the call: %s' % (out.stdout + out.stderr)[-200:]
     body = line[0][line[0].index('string_println("') + len('string_println("'):line[0].rindex('")')]
     got = py_go_decode(body)
+    if got is not None and len(got) == len(want): got = [g if w is not None else None for g, w in zip(got, want)]
     return got != want, 'goml `string_println("%s")` emits Go `%s`, which denotes %s; the source denotes %s' % (src_lit, line[0], got, want)
 
 def _string_obs():
